@@ -75,6 +75,8 @@ def run(ctx):
             if x is None or y is None:
                 ctx.broke("harness", "width-differential", "missing transcript (%s)" % (feats,), c.meta())
                 continue
+            if "unsafe_performance" in feats and (T_PANIC in x or x == [-4]):
+                continue    # C19's quantifier: the unchecked build is only specified on programs on which the default build does not panic
             if x != y:
                 nd += 1
                 k = core.first_diff(x, y)
